@@ -102,7 +102,14 @@ def extract_facts(wdir):
     os.makedirs(wdir, exist_ok=True)
     tla = os.path.join(wdir, "SodLockFacts.tla")
     js = os.path.join(wdir, "facts.json")
-    p = sh([ex, "-dir", src, "-out", tla, "-json", js], env=GOENV)
+    # (race/SodLockFacts.tla: the same programs with the accesses to fields of the shared structures in between, for the race model)
+    os.makedirs(os.path.join(wdir, "race"), exist_ok=True)
+    p = sh([ex, "-dir", src, "-out", tla, "-json", js, "-race", os.path.join(wdir, "race", "SodLockFacts.tla")], env=GOENV)
+    rp = os.path.join(wdir, "race", "SodLockFacts.tla")
+    with open(rp) as f:
+        txt = f.read().replace("MODULE SodRaceFacts", "MODULE SodLockFacts")
+    with open(rp, "w") as f:
+        f.write(txt)
     with open(js) as f:
         return json.load(f), tla, p.stdout.strip()
 
